@@ -47,7 +47,7 @@ func (verif14Events) PeerRemoved(core.PeerID, core.InfoHash) {}
 type verif14NoNet struct{}
 
 func (verif14NoNet) Produce(*networkevent.Event) {}
-func (verif14NoNet) Close() error               { return nil }
+func (verif14NoNet) Close() error                { return nil }
 
 type verif14Env struct {
 	t     storage.Torrent
